@@ -140,6 +140,25 @@ theorem C03_serial (l : Level) (g : Nat) (progs : List (List COp)) (hok : ∀ op
       simpa [Cfg.init] using e
     rw [e']; exact serial_allDone _
 
+/-- **a quantity amendment never touches the hidden-quantity counter**: in the model the amend goes from its
+    removal straight to the visible adjustment or to the re-insert — never to the hidden adjustment — because
+    `withReduced` leaves the hidden quantity alone. (The judge `C03.amendScan` checks exactly this on the real
+    trace: an amend that moved the hidden aggregate has created or destroyed quantity of that order.) -/
+theorem C03_amend_leaves_hidden (s : Shared) (id : Id) (n : Nat) (o1 new : Order) :
+    (tstep s (.am1 id n)).2.1 ≠ .cont (.amH o1 new) ∧
+      (tstep s (.amV o1 (o1.withReduced n))).2.1 ≠ .cont (.amH o1 (o1.withReduced n)) := by
+  constructor
+  · simp only [tstep]
+    cases hf : s.map.find id with
+    | none => simp
+    | some o =>
+      have hh : o.hid = (o.withReduced n).hid := (withReduced_hid o n).symm
+      simp only [hh, ne_eq, not_true_eq_false, if_false]
+      split <;> simp
+  · have hh : o1.hid = (o1.withReduced n).hid := (withReduced_hid o1 n).symm
+    simp only [tstep, hh, ne_eq, not_true_eq_false, if_false]
+    split <;> simp
+
 /-! non-vacuity: the serial execution of the program below is computed by the sequential model -/
 example : (serial ((Level.new 100).addOrder ⟨⟨false, 1⟩, 100, 10, .sell, 1, .gtc, .iceberg 5⟩) 0
     [[.amend ⟨false, 1⟩ 7], [.add ⟨⟨false, 2⟩, 100, 3, .sell, 2, .gtc, .standard⟩, .readVis]]).1.vis = 10 := by decide
